@@ -192,6 +192,13 @@ open LS.ConcRA
 /-- the orderings in the source, as numbers (operation, ordering) -/
 theorem codes : Gen.atomicOrdCodes = [(0, 0), (1, 2), (2, 1), (3, 1)] := rfl
 
+/-- the count is only ever touched by the four operations the model has: the increment of
+`make_shallow_clone`, the decrement and fence of `replace_inner`, the load of `is_unique` — no
+plain `store`, `swap`, `compare_exchange` or further load/read-modify-write anywhere in
+`src/repr.rs` / `src/repr/heap_buffer.rs` (code 4 = any other atomic operation) -/
+theorem count_touched_only_by_modelled_operations :
+    Gen.atomicOrdCodes.all (fun p => p.1 ≤ 3) = true := by decide
+
 /-- what the proof needs from them: `fetch_sub` is a release, an acquire fence precedes `dealloc`,
 the uniqueness load is an acquire (`fetch_add` may be relaxed) -/
 theorem src_orderings : srcOrds.subRel = true ∧ srcOrds.fenceAcq = true ∧ srcOrds.loadAcq = true := by decide
